@@ -292,6 +292,10 @@ def _chain_case(case, out):
         return
     tol = jdcheck.DERIV_TOL[dtype] * max(1.0, dual.max_abs) ** 2 * 8
     for li, x in zip(prog["shared_leaves"], shared):
+        ok_shape = tuple(chained[x].shape) == (m,) + tuple(x.shape) and tuple(direct[x].shape) == (m,) + tuple(x.shape)
+        if not out.check(ok_shape, "chain-shape", f"shared leaf {li}: chained {tuple(chained[x].shape)}, end-to-end "
+                         f"{tuple(direct[x].shape)}, expected {(m,) + tuple(x.shape)}"):
+            continue
         err = float((chained[x].double() - direct[x].double()).abs().max()) if x.numel() else 0.0
         out.within(err, tol, "chain-rule", f"shared leaf {li}: chained {chained[x].tolist()} vs end-to-end {direct[x].tolist()}")
         want = np.concatenate([dual.jac(l, li, prog) for l in prog["losses"]], axis=0)
@@ -306,6 +310,10 @@ def _dict_case(case, out):
     rng = np.random.default_rng(case["seed"])
     shapes = case["shapes"]
     keys = [torch.zeros(s, dtype=tdt) for s in shapes]
+    for i, kk in enumerate(keys):
+        if kk.ndim >= 2 and kk.numel() > max(kk.shape) and rng.integers(0, 3) == 0:
+            rev = list(range(kk.ndim))[::-1]
+            keys[i] = kk.permute(rev).contiguous().permute(rev)  # a non-contiguous (column-major) key
     nt = _nt_shapes(shapes)
     if kind == "init":
         res = Init(keys)(EmptyTensorDict())
